@@ -74,20 +74,31 @@ def check(ctx):
     ctx.sub(s1_identities)
     ctx.sub(s2_accumulators)
     ctx.sub(s3_remark)
+    ctx.sub(s4_aggregates)
     from . import c02
     ctx.sub(c02.refused_fill, 'C03.S2')       # reported P&L reflects accepted fills only
 
 
 def single(ctx, prop, orc, case):
     ps = summarise(ctx, 'Position.' + prop, policy=default_policy, oracle=orc)
-    ps = [p for p in ps if p.outcome == 'return']
-    if len(ps) != 1:
-        ctx.undecided('C03.S1', '%s has one path in case "%s"' % (prop, case), ctx.fn('Position.' + prop).site(),
-                      'paths: %s' % [cond_str(p) for p in ps][:4])
+    if any(p.outcome != 'return' for p in ps) or not ps or len(ps) > 8:
+        ctx.undecided('C03.S1', '%s returns a figure on every path in case "%s"' % (prop, case), ctx.fn('Position.' + prop).site(),
+                      'paths: %s' % [p.describe()[:120] for p in ps][:4])
         return None
-    if any(e.kind == 'write' and not e.d.get('local') for e in ps[0].flat_events()):
-        ctx.violation('C03.S1', '%s is a pure read (case "%s")' % (prop, case), ctx.fn('Position.' + prop).site(), key='C03.S1|pure|%s' % prop)
-    return ps[0].value
+    for p in ps:
+        if any(e.kind == 'write' and not e.d.get('local') for e in p.flat_events()):
+            ctx.violation('C03.S1', '%s is a pure read (case "%s")' % (prop, case), ctx.fn('Position.' + prop).site(), key='C03.S1|pure|%s' % prop)
+    # residual conditions (not decided by the sign case) split the case further: the identities must hold on every consistent combination
+    return [(frozenset((c, v) for c, v, _ in p.conds), p.value) for p in ps]
+
+
+def consistent(*condsets):
+    seen = {}
+    for cs in condsets:
+        for c, v in cs:
+            if seen.setdefault(c, v) != v:
+                return False
+    return True
 
 
 def s1_identities(ctx):
@@ -103,6 +114,16 @@ def s1_identities(ctx):
         if None in (tot, rea, unr, avg):
             continue
         n += 1
+        combos = [(a, b_, c_, d_) for a in tot for b_ in rea for c_ in unr for d_ in avg if consistent(a[0], b_[0], c_[0], d_[0])]
+        for (ca, tot1), (cb, rea1), (cc, unr1), (cd, avg1) in combos:
+            extra = sorted(set(('' if v else 'not ') + fmt(c) for c, v in ca | cb | cc | cd))
+            s1_case(ctx, cname + (' & ' + ' & '.join(extra) if extra else ''), case, m, tot1, rea1, unr1, avg1)
+    ctx.floor('C03.S1', 'sign cases decided', n, 5)
+    s1_reads(ctx)
+
+
+def s1_case(ctx, cname, case, m, tot, rea, unr, avg):
+        spec_total = T.t_sub(T.t_sub(T.t_sub(T.t_add(T.t_mul(cp, NET), T.t_mul(as_, s)), T.t_mul(ab, b)), bc), sc)
         where = ctx.fn('Position.total_pnl').site()
         ok1 = T.teq(sub(tot, m), sub(T.t_add(rea, unr), m))
         ctx.require(ok1, 'C03.S1', 'total P&L = realised + unrealised (case: %s)' % cname, where,
@@ -126,7 +147,9 @@ def s1_identities(ctx):
             ctx.require(T.teq(sub(unr, m), ZERO), 'C03.S1', 'a flat position has no unrealised P&L', ctx.fn('Position.unrealised_pnl').site(), fmt(unr),
                         key='C03.S1|unrealised|flat')
         ctx.sample({'rule': 'C03.S1', 'case': cname, 'total_pnl': fmt(tot), 'realised': fmt(rea), 'unrealised': fmt(unr)})
-    ctx.floor('C03.S1', 'sign cases decided', n, 5)
+
+
+def s1_reads(ctx):
     # P&L readers depend on the seven accounting fields only (no cache, no other state)
     allowed = {'buy_quantity', 'sell_quantity', 'avg_bought', 'avg_sold', 'buy_commission', 'sell_commission', 'current_price'}
     for prop in ('total_pnl', 'realised_pnl', 'unrealised_pnl', 'avg_price', 'market_value', 'net_quantity'):
@@ -209,6 +232,76 @@ def s2_accumulators(ctx):
         for k, e in exp.items():
             ctx.require(T.teq(f.get(k, ('var', '?')), e), 'C03.S2', 'opening %s fill seeds %s' % ('buy' if pos else 'sell', k),
                         ctx.fn('Position.open_from_transaction').site(), '%s = %s' % (k, fmt(f.get(k, ('var', '?')))), key='C03.S2|open|%s|%s' % (pos, k))
+
+
+POS = V('@position')
+
+
+def linear_sum(value):
+    """value == c1*SUM(e1 for .. in positions) + c2*SUM(e2 ..) + ...  ->  (c1*e1 + c2*e2 + ... over one canonical position variable, iterables, filters)
+    or None when the value is not a linear combination of sums (sum is linear; nothing else is assumed about it)."""
+    r = T.rat(value)
+    if r.d != T.p_const(1):
+        return None
+    total, its, ifs = ZERO, [], []
+    for m, c in r.n.items():
+        if len(m) != 1 or m[0][1] != 1:
+            return None
+        a = m[0][0]
+        if not (a[0] == 'call' and a[1] == ('ext', 'SUM') and len(a[2]) == 1):
+            return None
+        x = a[2][0]
+        if x[0] != 'comp' or len(x[3]) != 1:
+            return None
+        shape, it, fs = x[3][0]
+        posv = shape[-1]
+        rep = lambda z: POS if z == posv else None
+        total = T.t_add(total, T.t_mul(('num', c), T.replace(x[2], rep)))
+        its.append(fmt(it))
+        ifs.extend(T.replace(q, rep) for q in fs)
+    return total, its, ifs
+
+
+def s4_aggregates(ctx):
+    """Portfolio.total_pnl / total_realised_pnl / total_unrealised_pnl are the sums of the per-position figures over every open position."""
+    def no_props(caller, callee, depth):
+        return default_policy(caller, callee, depth) and not callee.is_property
+    P = lambda a: A(POS, a)
+    expected = {'total_pnl': [P('total_pnl'), T.t_add(P('realised_pnl'), P('unrealised_pnl'))],
+                'total_realised_pnl': [P('realised_pnl'), T.t_sub(P('total_pnl'), P('unrealised_pnl'))],
+                'total_unrealised_pnl': [P('unrealised_pnl'), T.t_sub(P('total_pnl'), P('realised_pnl'))]}
+    n = 0
+    for name, exps in expected.items():
+        qn = 'PositionHandler.' + name
+        fn = ctx.fn(qn)
+        ps = summarise(ctx, qn, policy=no_props)
+        nps = [p for p in ps if p.outcome == 'return']
+        if len(nps) != 1 or len(ps) != 1:
+            ctx.undecided('C03.S4', '%s has one path' % qn, fn.site(), [cond_str(p) for p in ps][:4])
+            continue
+        ls = linear_sum(nps[0].value) if nps[0].value != ZERO else (ZERO, [], [])
+        if ls is None:
+            ctx.undecided('C03.S4', '%s is a linear combination of sums over the positions' % qn, fn.site(), fmt(nps[0].value)[:200])
+            continue
+        n += 1
+        total, its, ifs = ls
+        ctx.require(all(i in ('self.positions.items()', 'self.positions.values()') for i in its) and its, 'C03.S4', '%s ranges over every open position' % qn, fn.site(),
+                    'iterates %s' % its, key='C03.S4|%s|iter' % name)
+        ctx.require(not ifs, 'C03.S4', '%s skips no position' % qn, fn.site(), [fmt(q) for q in ifs], key='C03.S4|%s|filter' % name)
+        ctx.require(any(T.teq(total, e) for e in exps), 'C03.S4', '%s sums the positions\' %s' % (qn, fmt(exps[0]).split('.')[-1]), fn.site(),
+                    'sums %s per position' % fmt(total), key='C03.S4|%s|summand' % name)
+        # the portfolio figure is the handler's, unmodified
+        pq = 'Portfolio.' + name
+        pps = summarise(ctx, pq, policy=no_props)
+        ok = len(pps) == 1 and pps[0].outcome == 'return' and pps[0].value == ('call', ('fn', qn), (A('self', 'pos_handler'),), ())
+        if not ok and len(pps) == 1 and pps[0].outcome == 'return':
+            # spelled out in the portfolio itself
+            l2 = linear_sum(pps[0].value)
+            ok = l2 is not None and not l2[2] and l2[1] and all(i in ('self.pos_handler.positions.items()', 'self.pos_handler.positions.values()') for i in l2[1]) \
+                and any(T.teq(l2[0], e) for e in exps)
+        ctx.require(ok, 'C03.S4', '%s is the handler\'s %s over the portfolio\'s own positions' % (pq, name), ctx.fn(pq).site(),
+                    [fmt(p.value)[:160] if p.value is not None else p.outcome for p in pps], key='C03.S4|%s|portfolio' % name)
+    ctx.floor('C03.S4', 'aggregates decided', n, 3)
 
 
 def s3_remark(ctx):
